@@ -123,6 +123,9 @@ def run(ctx) -> None:
     from ..dispatch import dispatch_shape
 
     dispatch_shape(ctx, RD, RW, RD)
+    # the queue coalesces by `==`: two events that differ in any field must not compare equal (the C16 rule, shared)
+    REQ = ctx.rule("C04/distinct-events-compare-unequal", "events are equal iff same class and same field values (generated dataclass equality over every field; instances shared with C16): otherwise the event queue coalesces two different events and one is never delivered", floor=12)
+    ctx.borrow("c16", "C16/event-equality", REQ)
 
     # ---------------------------------------------------------------- producers
     nprod = 0
